@@ -224,29 +224,51 @@ class Explorer:
         if not chains:
             return None
         t_end = time.time() + (timeout_ms or self.timeout_ms) / 1000.0
+        from . import ratfun
+        import sympy
 
-        def subs_for(k, fin):
-            qf, g = chains[k]
-            out = []
-            for q, (c, s) in g.items():
-                pw = _cpow(fin, qf // q)
-                out.append((c, z3.simplify(pw[0])))
-                out.append((s, z3.simplify(pw[1])))
-            return out
-
-        def run(subs, dropped):
+        def run(case):
+            """case: atom key -> None (excluded point) for at most one atom, parametrised otherwise"""
             left = int((t_end - time.time()) * 1000)
             if left < 200:
                 return "unknown", None
+            dropped = set()
+            subs = {}
+            cl = ratfun.Clearer(subs)
+            extra = []
+            tokvals = []
+            for i, (k, (qf, g)) in enumerate(chains.items()):
+                if k in case:
+                    fin = lambda m: ((sympy.Integer(-1)) ** m, sympy.Integer(0))
+                    # the finest sub-angle is half a turn (mod a turn): the atom itself is qf * (2j + 1) half turns
+                    atom = self.atom_terms.get(k)
+                    if atom is not None:
+                        extra.append(z3.Or([atom == qval(TAUQ / 2 * qf * (2 * j + 1)) for j in range(-8, 8)]))
+                else:
+                    uz = z3.Real("u!%d" % i)
+                    u = cl.new_symbol(uz)
+                    fin = lambda m, u=u: ratfun.circle_power(u, m)
+                dropped |= set(self.trig_ids[k])
+                for q, (c, s) in g.items():
+                    pc, ps = fin(qf // q)
+                    subs[c.decl().name()] = pc
+                    subs[s.decl().name()] = ps
+                    tokvals.append((c, pc))
+                    tokvals.append((s, ps))
             self.queries += 1
             t0 = time.time()
-            sol = z3.SolverFor("QF_NRA") if not (self.has_int and _mentions_int(self.cons + [goal])) else z3.Solver()
-            sol.set("timeout", left)
-            for c in self.cons:
-                if c.get_id() in dropped:
-                    continue
-                sol.add(z3.substitute(c, *subs))
-            sol.add(z3.substitute(goal, *subs))
+            try:
+                fs = [cl.formula(c) for c in self.cons if c.get_id() not in dropped] + [cl.formula(goal)] + extra
+            except (ratfun.Unsupported, sympy.PolynomialError, RecursionError):
+                self.q_unknown += 1
+                return "unknown", None
+            sol = z3.SolverFor("QF_NRA") if not (self.has_int and _mentions_int(fs)) else z3.Solver()
+            left = int((t_end - time.time()) * 1000)
+            sol.set("timeout", max(left, 200))
+            sol.add(*fs)
+            if os.environ.get("SYMX_DUMP"):
+                with open(os.environ["SYMX_DUMP"] + "_param_%d.smt2" % self.queries, "w") as f:
+                    f.write(sol.to_smt2())
             r = sol.check()
             self.solver_time += time.time() - t0
             if r == z3.unsat:
@@ -254,25 +276,43 @@ class Explorer:
                 return "unsat", None
             if r == z3.sat:
                 self.q_sat += 1
-                return "sat", sol.model()
+                pairs = []
+                mdl = sol.model()
+                if os.environ.get("SYMX_DEBUG"):
+                    gz = fs[len(fs) - len(extra) - 1]
+                    print("CLEARED GOAL", str(gz)[:3000])
+                    def _w(e, d=0):
+                        if z3.is_bool(e) and d < 5:
+                            print(" " * d, e.decl().name(), mdl.eval(e, model_completion=True))
+                            for c in e.children():
+                                _w(c, d + 1)
+                    _w(gz)
+                symval = {}
+                for name, (sy, zc) in cl.syms.items():
+                    if name.startswith("u!"):
+                        symval[sy] = z3num_to_float(mdl.eval(zc, model_completion=True))
+                for tok, val in tokvals:
+                    fv = _float(sympy.sympify(val).evalf(30, subs=symval))
+                    pairs.append((tok, qval(Fraction(fv))))
+                return "sat", ParamModel(mdl, pairs)
             self.q_unknown += 1
             return "unknown", None
 
-        # the points the parametrisation misses, one atom at a time (the other atoms keep their tokens)
-        for k in chains:
-            fin = (z3.RealVal(-1), z3.RealVal(0))
-            r, m = run(subs_for(k, fin), set(self.trig_ids[k]))
-            if r == "sat":
-                return "sat", m
-            if r != "unsat":
-                return "unknown", None
-        subs, dropped = [], set()
-        for i, k in enumerate(chains):
-            u = z3.Real("u!%d" % i)
-            den = 1 + u * u
-            subs.extend(subs_for(k, ((1 - u * u) / den, 2 * u / den)))
-            dropped |= set(self.trig_ids[k])
-        return run(subs, dropped)
+        # every combination of atoms at the point the parametrisation misses / parametrised
+        import itertools
+        keys = list(chains)
+        if len(keys) > 5:
+            return None
+        for nex in range(len(keys), -1, -1):
+            for combo in itertools.combinations(keys, nex):
+                r, m = run({k: None for k in combo})
+                if os.environ.get("SYMX_DEBUG"):
+                    print("param case", len(combo), r, round(time.time() - (t_end - (timeout_ms or self.timeout_ms) / 1000.0), 1), flush=True)
+                if r == "sat":
+                    return "sat", m
+                if r != "unsat":
+                    return "unknown", None
+        return "unsat", None
 
     def add(self, *cs):
         """add axioms / assumptions (invalidates the cached model unless it satisfies them)"""
@@ -392,6 +432,18 @@ class Explorer:
                 out = ("exc", e)
             results.append(PathResult(list(self.trace), out[0], out[1], self))
         return results
+
+
+class ParamModel:
+    """model of a parametrised query, presented as a model of the original one (token values computed from the
+    parameters)"""
+
+    def __init__(self, model, pairs):
+        self.m = model
+        self.pairs = pairs
+
+    def eval(self, t, model_completion=False):
+        return self.m.eval(z3.substitute(t, *self.pairs) if self.pairs else t, model_completion=model_completion)
 
 
 class PathResult:
